@@ -56,6 +56,27 @@ let () =
         let data = (match c C_thread_data with CV (CZero, _) -> "0" | _ -> "dirty") in
         Printf.printf "OUT RB %s start_intr_req=%d start_intr_enabled=%d start_data=%s exit_cb_accepted=%d\n"
           id (b F_requested_interrupt) (b F_enabled_interrupt) data accepted
+      | ["IN"; "HP"; id; which; sm; me; la; hu; prev; next] ->
+        (* may the object a task of class [prev] ran on be rebound to a task of class [next]?  The heap model of the queue
+           implementation in use (q = thread_queue, mc = thread_queue_mc / queue_holder_thread) on create, terminate, create *)
+        let p = function Small -> z_of_hex sm | Medium -> z_of_hex me | Large -> z_of_hex la
+                       | Huge -> z_of_hex hu | Nostack -> z_of_hex "7fffffffffffffff" in
+        let cls = function "0" -> Small | "1" -> Medium | "2" -> Large | _ -> Huge in
+        let ops = [Create (cls prev); Terminate O; Create (cls next)] in
+        let q = if which = "mc" then mc_q_run p ops else q_run p ops in
+        (match q.qlog with
+         | EvRebound (o, _, w) :: _ -> Printf.printf "OUT HP %s reuse=1 size=%s\n" id (hex_of_z o.osize); ignore w
+         | _ -> Printf.printf "OUT HP %s reuse=0 size=-\n" id)
+      | ["IN"; "CURMC"; id; path; creator; conv; req] ->
+        (* the same question for thread_queue_mc (shared-priority scheduler): mc_created_class / mc_created_enum, built on
+           Gen.mc_current_resolution (regenerated from thread_queue_mc.hpp) *)
+        let cls = function "0" -> Small | "1" -> Medium | "2" -> Large | _ -> Huge in
+        let ctx = function "-" -> None | x -> Some (cls x) in
+        let num = function Small -> "0" | Medium -> "1" | Large -> "2" | Huge -> "3" | Nostack -> "4" in
+        let p = if path = "R" then RunNow else Staged in
+        let r = if req = "c" then Current else Explicit (cls req) in
+        Printf.printf "OUT CUR %s cls=%s enum=%s\n" id (num (mc_created_class p (ctx creator) (ctx conv) r))
+          (match mc_created_enum p (ctx creator) r with Some c -> num c | None -> "current")
       | ["IN"; "CUR"; id; path; creator; conv; req] ->
         (* class of a task created through [path] (R = at once, S = staged) by a task of class [creator] (- = no task),
            a staged description being converted in context [conv]; req = 0..3 explicit class, c = thread_stacksize::current *)
